@@ -55,6 +55,21 @@ func loadPinned(prop string) ([]string, string) {
 	return out, commit
 }
 
+func loadNoinv(prop string) map[string]bool {
+	out := map[string]bool{}
+	data, err := os.ReadFile(filepath.Join(verifDir, "obligations", prop+".noinv"))
+	if err != nil {
+		return out
+	}
+	for _, l := range strings.Split(string(data), "\n") {
+		l = strings.TrimSpace(l)
+		if l != "" && !strings.HasPrefix(l, "#") {
+			out[l] = true
+		}
+	}
+	return out
+}
+
 func hasProp(ps []string, p string) bool {
 	for _, x := range ps {
 		if x == p {
@@ -71,6 +86,9 @@ type funcRun struct {
 	wall float64
 	presolved bool
 	skipped   []*Obl
+	noinv     bool // fallback encoding without loop invariants (the contract's invariants no longer attach)
+	detachErr string
+	noinvEnc  *Enc // at --pin: the invariant-free encoding solved beside the full one
 }
 
 func cmdCheck(args []string) int {
@@ -121,6 +139,17 @@ func cmdCheck(args []string) int {
 		r := &funcRun{key: k}
 		tf := time.Now()
 		r.enc, r.err = VerifyFunc(p, k)
+		if r.err != nil && strings.Contains(r.err.Error(), "unknown identifier") && len(fc.LoopInv) > 0 {
+			// a loop invariant names a local that no longer exists: fall back to the encoding
+			// without loop invariants; only the obligations recorded (at pin time) as discharged
+			// in that encoding on the unchanged tree stay claimed for this function
+			if e2, err2 := VerifyFuncOpt(p, k, true); err2 == nil {
+				r.detachErr = r.err.Error()
+				r.enc, r.err, r.noinv = e2, nil, true
+			}
+		} else if *pin && r.err == nil && len(fc.LoopInv) > 0 {
+			r.noinvEnc, _ = VerifyFuncOpt(p, k, true)
+		}
 		r.wall = time.Since(tf).Seconds()
 		runs = append(runs, r)
 	}
@@ -188,6 +217,9 @@ func cmdCheck(args []string) int {
 			sem <- struct{}{}
 			defer func() { <-sem }()
 			solveAll(r.enc, cfg, r.key)
+			if r.noinvEnc != nil {
+				solveAll(r.noinvEnc, cfg, r.key+".noinv")
+			}
 		}(r)
 	}
 	wg.Wait()
@@ -239,11 +271,16 @@ func report(p *Program, prop, tier string, seed int, runs []*funcRun, pin, verbo
 	bySolver := map[string]int{}
 	solverTime := 0.0
 	specAxioms := map[string]bool{}
+	noinvGroups := loadNoinv(prop)
+	noinvFns := map[string]string{} // function verified in the invariant-free fallback encoding -> why
 	for _, r := range runs {
 		funcs = append(funcs, r.key)
 		if r.err != nil {
 			genErr[r.key] = r.err.Error()
 			continue
+		}
+		if r.noinv {
+			noinvFns[r.key] = r.detachErr
 		}
 		for _, o := range r.enc.obls {
 			ps := o.Props
@@ -252,6 +289,9 @@ func report(p *Program, prop, tier string, seed int, runs []*funcRun, pin, verbo
 			}
 			if !hasProp(ps, prop) {
 				continue
+			}
+			if r.noinv && !noinvGroups[oblGroup(o.Name)] {
+				continue // not decided by the fallback encoding on the unchanged tree either
 			}
 			byName[o.Name] = o
 			solverTime += o.TimeS
@@ -318,6 +358,37 @@ func report(p *Program, prop, tier string, seed int, runs []*funcRun, pin, verbo
 			}
 		}
 		os.WriteFile(filepath.Join(verifDir, "obligations", prop+".undecided"), []byte(ub.String()), 0o644)
+		// obligation groups that are discharged WITHOUT any loop invariant of their function:
+		// they stay claimed when the invariants of a contract no longer attach (renamed locals)
+		var nb strings.Builder
+		fmt.Fprintf(&nb, "# obligation groups of %s whose members all discharge in the invariant-free fallback encoding\n", prop)
+		for _, r := range runs {
+			if r.noinvEnc == nil {
+				continue
+			}
+			good, bad := map[string]bool{}, map[string]bool{}
+			for _, o := range r.noinvEnc.obls {
+				ps := o.Props
+				if len(ps) == 0 && r.noinvEnc.TopC != nil {
+					ps = r.noinvEnc.TopC.Props
+				}
+				if !hasProp(ps, prop) {
+					continue
+				}
+				g := oblGroup(o.Name)
+				if o.Result == "unsat" && o.TimeS <= 6 && !strings.Contains(o.Solver, "goal-split") {
+					good[g] = true
+				} else {
+					bad[g] = true
+				}
+			}
+			for _, g := range sortedKeys(good) {
+				if !bad[g] && pg[g] {
+					nb.WriteString(g + "\n")
+				}
+			}
+		}
+		os.WriteFile(filepath.Join(verifDir, "obligations", prop+".noinv"), []byte(nb.String()), 0o644)
 		pinned, pinCommit = loadPinned(prop)
 	}
 	_ = pinCommit
@@ -394,6 +465,15 @@ func report(p *Program, prop, tier string, seed int, runs []*funcRun, pin, verbo
 		fn := g
 		if k := strings.Index(g, "/"); k > 0 {
 			fn = g[:k]
+		}
+		if why, ok := noinvFns[fn]; ok {
+			// the function is verified in the fallback encoding (its loop invariants name a local
+			// that no longer exists): this group needs the invariants and is not decided
+			if !detached[fn] {
+				detached[fn] = true
+				undecidedNew = append(undecidedNew, fn+": loop invariants no longer attach ("+why+"); only the obligations that need no loop invariant are decided for this function")
+			}
+			continue
 		}
 		reason := "no obligation of this group is generated any more (the contract does not attach: function changed shape, was renamed or removed)"
 		if e, ok := genErr[fn]; ok {
